@@ -1,6 +1,7 @@
 import AtreeProofs.Props.C11
 import AtreeProofs.Props.C10WPopOps
 import AtreeProofs.World.C11Aux
+import AtreeProofs.World.C11Scenario
 /-
   C11 — Detached containers and stale handles cannot corrupt a former parent: the WHOLE-OPERATION
   statements (audit items S4 / S5).  PROPERTY THEOREMS about the World model.
@@ -176,5 +177,83 @@ theorem removed_child_leaves_parent_unchanged (D : SlabID → DigestFn 4) (w : W
   refine ⟨⟨a, a', hpa, hpa', hl, fun e he hpe => hdet.1.2 p (holds_arr_of_mem hpa' he hpe)⟩,
     remove_forgets_index w p i cx old x w' cx' h hx (by rw [hc]; rfl), hdet, H',
     detached_root_notification_is_noop D w' _ x H' hdet.1⟩
+
+/-! ### Non-vacuity, run A (`AtreeProofs/World/C11Scenario.lean`, T = 256)
+
+Root array `R`; array `X` INLINED in slot 0 of `R` (one value); `Array.Set R 0 Y` overwrites `X` by
+the array `Y`; then `Array.Insert X 1 …` through the handle of the detached `X`. -/
+section NonVacuityA
+open Atree.C11Scenario
+open Atree.OkScenario (D pl cont?_getD)
+
+/-- The hypotheses of `overwritten_child_leaves_parent_unchanged` are met by the overwrite step of
+    run A (the invariant by chaining the operation theorems from the empty world); `X` is inlined
+    in `R` before the overwrite. -/
+theorem overwritten_hyps_met :
+    WorldOk' D c5.1 c5.2.ctr ∧ HandleOk c5.1 R ∧ WValOk c5.1 R (maxInlineArr c5.1.T) (.child Y 0) ∧
+    c5.1.arrSet R 0 (.child Y 0) c5.2 = .ok c6 ∧ c6.1.pay = .ref X ∧
+    (c5.1.cont? R).map Cont.pays = some [.ref X] ∧
+    (c5.1.cont? X).map Cont.isInlined = some true ∧ (c5.1.cont? X).map Cont.pays = some [.val 1] :=
+  ⟨okA5, handleR5, valY5, runA6, by decide, by decide, by decide, by decide⟩
+
+/-- … so its conclusions hold of the state `c6` after the overwrite. -/
+theorem overwritten_instance :
+    ∃ c, c5.1.cont? X = some c ∧
+    (∃ a' e, c6.2.1.cont? R = some (.arr a') ∧ a'.toList[0]? = some e ∧ e.pay = .ref Y ∧ Y ≠ X) ∧
+    AList.find? (c6.2.1.idxOf R) X = none ∧
+    (DetachedRoot c6.2.1 X ∧ ∃ c', c6.2.1.cont? X = some c' ∧ c'.isInlined = false ∧ c'.vid = c.vid ∧
+      c'.storedElems = c.storedElems) ∧
+    WorldOk' D c6.2.1 c6.2.2.ctr ∧
+    (∀ fuel cx2 w2 cx2', notifyParent fuel c6.2.1 X cx2 = .ok (w2, cx2') →
+      cx2' = cx2 ∧ (w2 = c6.2.1 ∨ w2 = { c6.2.1 with hinfo := AList.erase c6.2.1.hinfo X })) := by
+  have hc := cont?_getD (w := c5.1) (x := X) (.arr (Arr.new 0 0 Scenario.cx0).1) (by decide)
+  exact ⟨_, hc, overwritten_child_leaves_parent_unchanged D c5.1 R 0 Y 0 c5.2 c6.1 c6.2.1 c6.2.2 X _
+    okA5 handleR5 valY5 runA6 (by decide) hc⟩
+
+/-- What the run looks like around the detachment.  After the overwrite: slot 0 of `R` holds `Y`
+    (inlined: 17 bytes), the reference to `X` was handed back (19 bytes), `X` has been un-inlined
+    (`store X`), KEEPS its closure naming `R` (the Go object keeps its `parentUpdater`), and its
+    index entry is gone.  The later `Array.Insert` through the handle of `X` is a successful run of
+    the model operation; it writes `X` only (`store X`); `R` — content, root size, index table —
+    is unchanged; the stale closure of `X` has been cleared. -/
+theorem overwritten_run_facts :
+    (c6.2.1.cont? R).map Cont.storedElems = some [⟨17, .ref Y⟩] ∧ c6.1 = ⟨19, .ref X⟩ ∧
+    c6.2.2.eff = c5.2.eff ++ [.remove Y, .store R, .store X] ∧
+    AList.find? c6.2.1.hinfo X = some ⟨R, none, 117, 0⟩ ∧
+    AList.find? (c6.2.1.idxOf R) X = none ∧ AList.find? (c6.2.1.idxOf R) Y = some 0 ∧
+    c6.2.1.arrInsert X 1 (pl 2) c6.2.2 = .ok c7 ∧
+    c7.2.eff = c6.2.2.eff ++ [.store X] ∧
+    (c7.1.cont? R).map Cont.storedElems = (c6.2.1.cont? R).map Cont.storedElems ∧
+    (c7.1.cont? R).map Cont.rootSize = (c6.2.1.cont? R).map Cont.rootSize ∧
+    (c7.1.cont? R).map Cont.isInlined = (c6.2.1.cont? R).map Cont.isInlined ∧
+    c7.1.idxOf R = c6.2.1.idxOf R ∧
+    (c7.1.cont? X).map Cont.pays = some [.val 1, .val 2] ∧
+    AList.find? c7.1.hinfo X = none := by
+  refine ⟨by decide, by decide, by decide, by decide, by decide, by decide, runA7, by decide, by decide,
+    by decide, by decide, by decide, by decide, by decide⟩
+
+/-- `set_forgets_index` applies to the overwrite of `X` -/
+theorem set_forgets_index_applies : AList.find? (c6.2.1.idxOf R) X = none :=
+  set_forgets_index c5.1 R 0 (.child Y 0) c5.2 c6.1 X c6.2.1 c6.2.2 runA6 (by decide) (by decide)
+    (fun wr h => by cases h)
+
+/-- Inside the later `Array.Insert` through `X` (state `mid7` at the call of `notifyParent`): the
+    hypotheses of `C11.detached_array_child_leaves_parent_unchanged` are met — closure present and
+    naming the live array `R`, index unknown — the callback is NOT short-cut (`X` is standalone but
+    would fit inline), slot 0 of the former parent holds another container, and the second
+    alternative of the conclusion happens (the closure is cleared). -/
+theorem overwritten_detached_hyps_met :
+    ∃ (c : Cont) (pa : Arr),
+      AList.find? mid7.1.hinfo X = some ⟨R, none, 117, 0⟩ ∧ mid7.1.cont? X = some c ∧
+      mid7.1.cont? R = some (.arr pa) ∧ AList.find? (mid7.1.idxOf R) X = none ∧
+      pa.toList.map (·.pay) = [.ref Y] ∧
+      notifyParent (3 + 1) mid7.1 X mid7.2 =
+        .ok ({ mid7.1 with hinfo := AList.erase mid7.1.hinfo X }, mid7.2) ∧
+      ¬ (c.isInlined = false ∧ c.inlinable 117 = false) := by
+  refine ⟨.arr (Scenario.arrOf mid7.1 X), Scenario.arrOf mid7.1 R, by decide, rfl, rfl, by decide, by decide, ?_,
+    by decide⟩
+  rw [notifyParent_eq_notifyS]; rfl
+
+end NonVacuityA
 
 end Atree.C11
